@@ -236,6 +236,22 @@ def check_cli(case, ctx: Ctx):
         cs, bins = call("parse_bins(chromsizes:binsize)", parse_bins, f"{cs_path}:{w}")
         check(_frame_rows(bins) == want, "parse_bins(chromsizes:binsize) differs from oracle")
         check(list(cs.index) == names and [int(v) for v in cs.values] == lengths, "parse_bins chromsizes")
+        # a bin size written with a unit ("10kb", "4.1Mb", "2.01k"): refused, or - if a version accepts it - exactly the
+        # integer it denotes
+        from decimal import Decimal
+
+        for spell in ("10kb", "4.1Mb", "8.2M", "2.01k", "64.1kb", "2.5Mb", "1k", "16.4M", "2.05Mb"):
+            try:
+                cs_u, bins_u = parse_bins(f"{cs_path}:{spell}")
+            except (Exception, SystemExit):  # noqa: BLE001 - refusal is the unchanged tree's answer
+                continue
+            num = spell.rstrip("bB")
+            scale = {"k": 1000, "m": 10**6, "g": 10**9}[num[-1].lower()]
+            denoted = Decimal(num[:-1]) * scale
+            check(denoted == int(denoted), f"parse_bins accepted {spell!r}, which is not an integer number of bp")
+            want_u = model.bins_rows(model.binnify(names, lengths, int(denoted)))
+            check(_frame_rows(bins_u) == want_u,
+                  lambda: f"parse_bins('<chromsizes>:{spell}') made bins of width {(bins_u['end'] - bins_u['start']).max()}, {spell} denotes {int(denoted)} bp")
         # spelling 2: BED file of bins (use the makebins output without header/ids)
         bed = os.path.join(d, "b.bed")
         with open(bed, "w") as f:
